@@ -260,6 +260,14 @@ class MatrixWeighting(Weighting):
         """Weighting matrix of this inner product."""
         return self._matrix
 
+    @property
+    def matrix_issparse(self):
+        """Whether the representing matrix is sparse or not."""
+        # Lazy import to improve `import odl` time
+        import scipy.sparse
+
+        return scipy.sparse.isspmatrix(self.matrix)
+
     def is_valid(self):
         """Test if the matrix is positive definite Hermitian.
 
